@@ -23,6 +23,19 @@ combinators of the hand-written `Hdc/PyNpF.lean`:
   name = <array expression>          (re)binding; a rebound *parameter* gets a `let mut` shadow at the top
 
 Anything else raises `Unsupported` (-> `FAILED <module>: reason`, exit 1).
+
+Instrumentation mode (`SafeNp`, a subclass of py2lean_num.SafeMixin handed to `base.main` through the hook `safe_mixin`; both kernels
+are declared with the `safe` key -> Hdc/Gen/SafeWs2dgu.lean, SafeWs2dpgu.lean, namespace `Hdc.Gen.Safe`): the vector idioms contain no
+subscript and no scalar division; what NumPy can raise on is a SHAPE mismatch, so the flag `bad` is or-ed with
+  * `lenDiffer A.size B.size`        (Hdc/PySafeF.lean) for every elementwise `A op B` / `A cmp B` of two arrays, every pair
+                                     condition/array-alternative of `np.where(C, X, Y)`, every in-place store `a[:] = B`
+                                     (source against target), `np.round(z, 0, out)` (`z` against `out`) and every boolean-mask store
+                                     `a[M] = s` (mask against array)  - exactly the cases in which the combinators of PyNpF.lean
+                                     truncate / keep the target instead of raising;
+  * `(Gen.Safe.ws2d y l w).2`        for every call of the smoother (its own subscripts and divisions);
+  * a comprehension `[e for x in a]` whose element expression contains a subscript, a division or a kernel call is refused
+    (`Unsupported("safe: ...")`), as is every construct the mode does not know.
+Scalar divisions / subscripts (none in the two kernels today) are instrumented by the base class.
 """
 import ast
 import sys
@@ -35,11 +48,11 @@ KERNELS = [
     dict(name="ws2dgu", file="hdc/algo/ops/ws2dgu.py", func="ws2dgu",
          params=[("y", "arrnum"), ("lmda", "num"), ("nodata", "num"), ("out", "arrnum")],
          consts={}, extra="(rnd : α → α) (isnan isinf : α → Bool)", ret="out", uses="",
-         imports=["Hdc.Gen.Ws2d", "Hdc.PyNpF"]),
+         imports=["Hdc.Gen.Ws2d", "Hdc.PyNpF"], safe=True, safe_imports=["Hdc.Gen.SafeWs2d", "Hdc.PySafeF"]),
     dict(name="ws2dpgu", file="hdc/algo/ops/ws2dpgu.py", func="ws2dpgu",
          params=[("y", "arrnum"), ("lmda", "num"), ("nodata", "num"), ("p", "num"), ("out", "arrnum")],
          consts={}, extra="(rnd : α → α) (isnan isinf : α → Bool)", ret="out", uses="",
-         imports=["Hdc.Gen.Ws2d", "Hdc.PyNpF"]),
+         imports=["Hdc.Gen.Ws2d", "Hdc.PyNpF"], safe=True, safe_imports=["Hdc.Gen.SafeWs2d", "Hdc.PySafeF"]),
 ]
 
 ARR = ("arrnum", "arrbool")
@@ -278,8 +291,68 @@ class KNp(base.K):
         return super().run()
 
 
+class SafeNp(base.SafeMixin):
+    """instrumentation of the vector idioms of `KNp` (see the module docstring)"""
+
+    def size_of(self, e):
+        """`.size` of the array expression `e` as the translator renders it"""
+        if isinstance(e, ast.Call) and isinstance(e.func, ast.Name) and e.func.id == "ws2d":
+            return f"{self.value_term(e)[1]}.size"
+        return f"{paren(self.aexpr(e))}.size"
+
+    def len_check(self, a, b, out, g):
+        out.append(self.guarded(g, f"lenDiffer {self.size_of(a)} {self.size_of(b)}"))
+
+    def ck(self, e, out, g=()):
+        if isinstance(e, ast.ListComp):
+            gen = e.generators[0] if len(e.generators) == 1 else None
+            if gen is None:
+                raise Unsupported("safe: nested comprehension")
+            self.ck(gen.iter, out, g)
+            inner = []
+            self.with_comp_var(e, lambda: self.ck(e.elt, inner, g))
+            if inner:
+                raise Unsupported("safe: comprehension whose element has a subscript, a division or a kernel call")
+            return
+        if isinstance(e, ast.Subscript) and isinstance(e.value, ast.Name) and not isinstance(e.slice, (ast.Slice, ast.Tuple)) \
+                and self.ty.get(e.value.id) in ARR and self.typeof(e.slice) == "arrbool":
+            self.ck(e.slice, out, g)                     # a[M]: the mask must have the length of the array
+            return self.len_check(e.slice, e.value, out, g)
+        if isinstance(e, ast.UnaryOp) and isinstance(e.op, ast.Invert):
+            return self.ck(e.operand, out, g)
+        if isinstance(e, (ast.BinOp, ast.Compare)) and not (isinstance(e, ast.Compare) and len(e.ops) != 1):
+            l, r = (e.left, e.right) if isinstance(e, ast.BinOp) else (e.left, e.comparators[0])
+            super().ck(e, out, g)
+            if self.typeof(l) in ARR and self.typeof(r) in ARR:
+                self.len_check(l, r, out, g)
+            return
+        if np_call(e, "where") and len(e.args) == 3:
+            super().ck(e, out, g)
+            for alt in e.args[1:]:
+                if self.typeof(alt) in ARR:
+                    self.len_check(e.args[0], alt, out, g)
+            return
+        return super().ck(e, out, g)
+
+    def stmt_checks(self, s):
+        out = super().stmt_checks(s)
+        if isinstance(s, ast.Assign) and len(s.targets) == 1 and isinstance(s.targets[0], ast.Subscript) \
+                and isinstance(s.targets[0].slice, ast.Slice) and isinstance(s.targets[0].value, ast.Name):
+            t = s.targets[0]
+            if not (t.slice.lower is None and t.slice.upper is None and t.slice.step is None):
+                raise Unsupported("safe: partial slice store")
+            if self.typeof(s.value) in ARR:               # a[:] = B: NumPy raises unless len B = len a (a scalar is broadcast)
+                self.len_check(s.value, t.value, out, ())
+        if isinstance(s, ast.Expr) and np_call(s.value, "round") and len(s.value.args) == 3:
+            self.len_check(s.value.args[0], s.value.args[2], out, ())
+        return list(dict.fromkeys(out))
+
+
 for _cfg in KERNELS:
     _cfg["translator"] = KNp
+    _cfg["safe_mixin"] = SafeNp
+    _cfg["safe_note"] = ("\nVector idioms (harness/py2lean_fixed.py): `lenDiffer m n` (Hdc/PySafeF.lean) is set when two arrays that NumPy combines cell by cell"
+                         "\n(`A op B`, `np.where`, `a[:] = B`, `np.round(z, 0, out)`, the mask of `a[M] = s`) differ in length.")
 
 
 def main():
